@@ -15,6 +15,7 @@ import (
 
 	"verif/harness/internal/dom"
 	"verif/harness/internal/pbt"
+	"verif/harness/internal/via"
 )
 
 func TestMain(m *testing.M) { pbt.Main(m, "C03") }
@@ -50,6 +51,7 @@ type list interface {
 	Clear()
 	Values() []int
 	FromJSON([]byte) error
+	UnmarshalJSON([]byte) error
 }
 
 type linked interface {
@@ -265,8 +267,12 @@ func check(c Case) (pbt.Info, error) {
 				// a state reached through FromJSON is a reachable state too: the array
 				// replaces the content and the list keeps behaving as the sequence
 				doc, _ := json.Marshal(append([]int{}, op.Vs...))
-				if err := l.FromJSON(doc); err != nil {
-					return info, fmt.Errorf("%s step %d: FromJSON(%s) failed: %v", names[li], i, doc, err)
+				target := via.In(l)
+				if a, ok := l.(arrayAsLinked); ok {
+					target = a.List // the wrapper is a value; encoding/json needs the pointer
+				}
+				if err := via.Auto(target, doc); err != nil {
+					return info, fmt.Errorf("%s step %d: %s(%s) failed: %v", names[li], i, via.AutoName(doc), doc, err)
 				}
 			default:
 				return info, fmt.Errorf("bad op %q", op.O)
@@ -368,7 +374,7 @@ func genLong(t *rapid.T) Case {
 	big := func(label string, lo, hi int) []int {
 		return rapid.SliceOfN(rapid.IntRange(-3, 12), lo, hi).Draw(t, label)
 	}
-	c.Init = big("init", 0, 140)
+	c.Init = big("init", 0, pbt.Size(140))
 	m := slices.Clone(c.Init)
 	for chunk := 0; chunk < 3; chunk++ {
 		n := rapid.IntRange(0, 10).Draw(t, "n")
@@ -379,7 +385,7 @@ func genLong(t *rapid.T) Case {
 			case 0:
 				continue
 			case 1:
-				op = Op{O: "add", Vs: big("vs", 30, 200)}
+				op = Op{O: "add", Vs: big("vs", 30, pbt.Size(200))}
 			case 2:
 				op = Op{O: "prepend", Vs: big("vs", 10, 90)}
 			case 3:
@@ -412,7 +418,7 @@ func genLong(t *rapid.T) Case {
 			case 8:
 				op = Op{O: "clear"}
 			case 9: // a run of removals at one (relative) position: front, back or middle
-				k := rapid.IntRange(5, 300).Draw(t, "k")
+				k := rapid.IntRange(5, pbt.Size(300)).Draw(t, "k")
 				where := rapid.IntRange(0, 2).Draw(t, "where")
 				for j := 0; j < k && len(m) > 0; j++ {
 					idx := []int{0, len(m) - 1, len(m) / 2}[where]
